@@ -152,7 +152,7 @@ def model_exe():
         _model_built = True
     return exe
 
-def run_model(lines, timeout=3600):
+def run_model(lines, timeout=21600):   # (the exact-rational model is slow on the largest thorough-tier matrices; a loaded machine must not turn that into an alarm)
     p = subprocess.run([model_exe()], input='\n'.join(lines) + '\n', capture_output=True, text=True, timeout=timeout)
     if p.returncode != 0:
         raise RuntimeError('ofmodel exited %d: %s' % (p.returncode, p.stderr[-500:]))
